@@ -3,6 +3,7 @@ package main
 import (
 	"bufio"
 	"bytes"
+	"context"
 	"encoding/json"
 	"fmt"
 	"io"
@@ -11,6 +12,7 @@ import (
 	"reflect"
 	"strings"
 	"sync"
+	"syscall"
 	"time"
 
 	hg "github.com/mosaicnetworks/babble/src/hashgraph"
@@ -76,14 +78,55 @@ type shim struct {
 	seen   int      // requests seen
 	isDown bool
 	addr   string
+	hold   int // while down: a socket bound to addr that does not listen (dials are refused, the port stays ours)
+}
+
+// reusePort lets the forwarder's listener and its placeholder socket share the address, so that going down and
+// coming up never releases the port (another process, or an outgoing connection, could otherwise take it).
+func reusePort(network, address string, c syscall.RawConn) error {
+	var serr error
+	if err := c.Control(func(fd uintptr) {
+		serr = syscall.SetsockoptInt(int(fd), syscall.SOL_SOCKET, soReusePort, 1)
+	}); err != nil {
+		return err
+	}
+	return serr
+}
+
+func listenReuse(addr string) (stdnet.Listener, error) {
+	lc := stdnet.ListenConfig{Control: reusePort}
+	return lc.Listen(context.Background(), "tcp", addr)
+}
+
+// holdPort binds (without listening) a socket to addr.
+func holdPort(addr string) (int, error) {
+	ta, err := stdnet.ResolveTCPAddr("tcp", addr)
+	if err != nil {
+		return -1, err
+	}
+	fd, err := syscall.Socket(syscall.AF_INET, syscall.SOCK_STREAM, 0)
+	if err != nil {
+		return -1, err
+	}
+	if err := syscall.SetsockoptInt(fd, syscall.SOL_SOCKET, soReusePort, 1); err != nil {
+		syscall.Close(fd)
+		return -1, err
+	}
+	sa := &syscall.SockaddrInet4{Port: ta.Port}
+	copy(sa.Addr[:], ta.IP.To4())
+	if err := syscall.Bind(fd, sa); err != nil {
+		syscall.Close(fd)
+		return -1, err
+	}
+	return fd, nil
 }
 
 func newShim(addr, target string) (*shim, error) {
-	ln, err := stdnet.Listen("tcp", addr)
+	ln, err := listenReuse(addr)
 	if err != nil {
 		return nil, err
 	}
-	s := &shim{ln: ln, target: target, addr: addr}
+	s := &shim{ln: ln, target: target, addr: addr, hold: -1}
 	go s.serve()
 	return s, nil
 }
@@ -91,8 +134,13 @@ func newShim(addr, target string) (*shim, error) {
 // down makes the application side unreachable: the listener is closed (dials are refused) and
 // established connections are cut at their next request; up re-opens it on the same address.
 func (s *shim) down() {
+	fd, err := holdPort(s.addr)
+	if err != nil {
+		ev.Fail("forwarder: cannot hold %s while down: %v", s.addr, err)
+	}
 	s.mu.Lock()
 	s.isDown = true
+	s.hold = fd
 	s.mu.Unlock()
 	s.ln.Close()
 }
@@ -101,7 +149,7 @@ func (s *shim) up() error {
 	var ln stdnet.Listener
 	var err error
 	for i := 0; i < 200; i++ {
-		ln, err = stdnet.Listen("tcp", s.addr)
+		ln, err = listenReuse(s.addr)
 		if err == nil {
 			break
 		}
@@ -113,6 +161,10 @@ func (s *shim) up() error {
 	s.mu.Lock()
 	s.isDown = false
 	s.ln = ln
+	if s.hold >= 0 {
+		syscall.Close(s.hold)
+		s.hold = -1
+	}
 	s.mu.Unlock()
 	go s.serve()
 	return nil
@@ -799,3 +851,6 @@ func sortStrings(s []string) {
 }
 
 var _ = io.EOF
+
+// SO_REUSEPORT on Linux (the syscall package does not export it for every architecture)
+const soReusePort = 0xf
